@@ -2,6 +2,7 @@ package h
 
 import (
 	"cosmossdk.io/math"
+	codectypes "github.com/cosmos/cosmos-sdk/codec/types"
 	sdk "github.com/cosmos/cosmos-sdk/types"
 
 	adapterctrl "github.com/noble-assets/orbiter/v2/controller/adapter"
@@ -117,6 +118,25 @@ func H_C15_parse() {
 		must(err)
 		acts = append(acts, a)
 	}
+	// attributes whose type is known to the codec but NOT registered for the position they are in
+	wrong := verif.Choose("wrong-attribute-type", 5)
+	wrongAct := func() *core.Action {
+		a, err := core.NewAction(core.ACTION_SWAP, &fwdtypes.InternalAttributes{Recipient: user1.String()})
+		must(err)
+		return a
+	}
+	switch wrong {
+	case 1:
+		acts = []*core.Action{wrongAct(), feeAction(100)}
+	case 2:
+		acts = []*core.Action{feeAction(100), wrongAct()}
+	case 3:
+		acts = []*core.Action{wrongAct()}
+	case 4:
+		any, err := codectypes.NewAnyWithValue(&actiontypes.FeeAttributes{})
+		must(err)
+		f = &core.Forwarding{ProtocolId: f.ProtocolId, Attributes: any, PassthroughPayload: f.PassthroughPayload}
+	}
 	pl, err := core.NewPayload(f, acts...)
 	must(err)
 
@@ -133,12 +153,13 @@ func H_C15_parse() {
 	got, perr := parser.ParsePayload([]byte(memo))
 	if perr != nil {
 		verif.Cover("refused")
-		verif.Assert(!(kind == 0 && extra == 0), "memo-of-a-constructor-built-payload-is-accepted")
+		verif.Assert(!(kind == 0 && extra == 0 && wrong == 0), "memo-of-a-constructor-built-payload-is-accepted")
 		return
 	}
 	verif.Cover("accepted")
 	verif.Assert(kind == 0 && extra == 0, "accepted-memo-is-a-single-orbiter-root-key-with-a-payload")
-	if !(kind == 0 && extra == 0) {
+	verif.Assert(wrong == 0, "attributes-of-an-unregistered-type-are-refused")
+	if !(kind == 0 && extra == 0 && wrong == 0) {
 		return
 	}
 	verif.Assert(wellFormed(got), "accepted-payload-is-well-formed")
